@@ -42,6 +42,7 @@ not support array ranges.
 
 '''
 
+from psyclone.core import SymbolicMaths
 from psyclone.errors import LazyString
 from psyclone.psyGen import Transformation
 from psyclone.psyir.nodes import (
@@ -316,6 +317,51 @@ class ArrayAssignment2LoopsTrans(Transformation):
                 # pylint: disable=cell-var-from-loop
                 raise TransformationError(LazyString(
                     lambda: f"{message} in:\n{node.debug_string()}."))
+
+        # Fortran evaluates the whole RHS before assigning any element, while
+        # the generated loop assigns one element per iteration. These are only
+        # equivalent if every access to the LHS array (in the RHS or in the
+        # LHS index expressions) uses the same ranges as the LHS, and if all
+        # ranges that are expanded together have the same stride.
+        lhs_ranges = node.lhs.walk(Range)
+        lhs_sig, lhs_indices = node.lhs.get_signature_and_indices()
+        lhs_indices = [idx for indices in lhs_indices for idx in indices]
+        message = None
+        for ref in node.walk(Reference):
+            if (ref is node.lhs or ref.symbol is not node.lhs.symbol or
+                    options.get("allow_overlap", False) or
+                    (isinstance(ref.parent, IntrinsicCall) and
+                     ref.parent.is_inquiry)):
+                continue
+            sig, indices = ref.get_signature_and_indices()
+            indices = [idx for idxs in indices for idx in idxs]
+            if sig != lhs_sig or (not indices and all(
+                    rge.parent.is_full_range(rge.parent.index_of(rge))
+                    for rge in lhs_ranges)):
+                continue  # a different member or the whole array
+            if len(indices) != len(lhs_indices) or any(
+                    isinstance(idx1, Range) != isinstance(idx2, Range) or
+                    (isinstance(idx1, Range) and idx1 != idx2 and not (
+                        idx1.parent.is_full_range(idx1.parent.index_of(idx1))
+                        and
+                        idx2.parent.is_full_range(idx2.parent.index_of(idx2))))
+                    for idx1, idx2 in zip(lhs_indices, indices)):
+                message = (f"{self.name} does not support array assignments "
+                           f"where the LHS array is also accessed with "
+                           f"different ranges (the loop could overwrite "
+                           f"values before they are read)")
+        for expr in node.rhs.walk(ArrayMixin, stop_type=ArrayMixin):
+            ranges = expr.walk(Range)
+            if len(ranges) == len(lhs_ranges) and not all(
+                    SymbolicMaths.get().equal(rge1.step, rge2.step)
+                    for rge1, rge2 in zip(lhs_ranges, ranges)):
+                message = (f"{self.name} does not support array assignments "
+                           f"with ranges that have different strides")
+        if message:
+            if verbose:
+                node.append_preceding_comment(message)
+            raise TransformationError(LazyString(
+                lambda: f"{message}, but found:\n{node.debug_string()}"))
 
         # For each top-level reference (because we don't support nesting), the
         # apply will have to be able to decide if its an Array (and access it
